@@ -54,6 +54,17 @@ Definition enc_run (tbl : list (list cres)) (dflt : cres) (d : drv) (tmo : Z) (r
   let c0 := start d 7 tmo rc in
   let '(l, cf) := trace o d c0 ts in
   enc_obs c0 ++ l ++ [-7] ++ flat_map enc_ev (evs cf).
+Fixpoint trace_ev (o : nat -> nat -> cres) (r : Z) (c : client) (ts : list tick) : list Z * client :=
+  match ts with
+  | [] => ([], c)
+  | t :: ts' => let c' := step_ev o lname pname r c t in
+                let '(l, cf) := trace_ev o r c' ts' in (enc_obs c' ++ l, cf)
+  end.
+Definition enc_run_ev (tbl : list (list cres)) (dflt : cres) (tmo : Z) (rc : bool) (r : Z) (ts : list tick) : list Z :=
+  let o := orc_of tbl dflt in
+  let c0 := start Patron 7 tmo rc in
+  let '(l, cf) := trace_ev o r c0 ts in
+  enc_obs c0 ++ l ++ [-7] ++ flat_map enc_ev (evs cf).
 Fixpoint l_eqb (a b : list Z) : bool :=
   match a, b with [], [] => true | x :: a', y :: b' => Z.eqb x y && l_eqb a' b' | _, _ => false end.
 """
@@ -131,14 +142,23 @@ def run(ctx):
     rng = ctx.rng
     cases, metas = [], []
 
-    def add(drv, rc, tmo, table, dflt, ticks, kind, live=None, own=True):
-        out, info = harness.run_impl(drv, rc, tmo, table, dflt, ticks, own=own)
+    def add(drv, rc, tmo, table, dflt, ticks, kind, live=None, own=True, retry_ms=None):
+        # event-stream Patron: clock unit 1/64 s, model duration = ceil(retry / unit)
+        tick = 1.0 / 64 if retry_ms is not None else None
+        rticks = -(-retry_ms * 64 // 1000) if retry_ms is not None else None
+        out, info = harness.run_impl(drv, rc, tmo, table, dflt, ticks, own=own, retry_ms=retry_ms, tick=tick)
         nontriv = info["opens"] >= 2 and (any(c for _, c in ticks) or sum(dt for dt, _ in ticks) >= tmo > 0)
         ctx.case({"drv": drv, "rc": rc, "tmo": tmo, "table": table, "dflt": dflt, "ticks": ticks},
                  nontrivial=nontriv, kind=kind)
-        cases.append((c_case(drv, rc, tmo, table, dflt, ticks), clist([cz(x) for x in out], "Z")))
+        if retry_ms is None:
+            cases.append((c_case(drv, rc, tmo, table, dflt, ticks), clist([cz(x) for x in out], "Z")))
+        else:
+            tbl = clist([clist(row, "cres") for row in table], "(list cres)")
+            ts = clist(["(%s, %s)" % (cz(dt), cbool(cut)) for dt, cut in ticks], "tick")
+            cases.append(("(enc_run_ev %s %s %s %s %s %s)" % (tbl, dflt, cz(tmo), cbool(rc), cz(rticks), ts),
+                          clist([cz(x) for x in out], "Z")))
         metas.append({"drv": drv, "rc": rc, "tmo": tmo, "table": table, "dflt": dflt, "ticks": ticks,
-                      "info": info, "live": live, "own": own})
+                      "info": info, "live": live, "own": own, "retry_ms": retry_ms})
 
     drivers = ["Bare", "Patron", "Stack"]
     # 1. small-scope exhaustive: every tick sequence of length L over dt in {0,2}, cut in {F,T}
@@ -186,11 +206,42 @@ def run(ctx):
         if rng.random() < 0.3:   # start connected then get cut: first socket connects at once
             dtab[0] = ["C0"]
             pre = pre + [(1, True)]
-        _, pinfo = harness.run_impl(drv, True, tmo, dtab, "CINPROGRESS", pre)
+        _, pinfo = harness.run_impl(drv, True, tmo, dtab, "C0", pre)   # same default as the final run
         n0 = pinfo["opens"]
         table = dtab[:n0] + listening_table(0, lag, 6, rng)
         ticks, i0, n = liveness_case(drv, tmo, dmin, dmax, lag, pre, table, "C0", rng)
         add(drv, True, tmo, table, "C0", ticks, "down-then-up", live=(i0, n))
+
+    # 4. event-stream Patron (respondent.evented): the reconnect duration comes from respondent.retry.
+    #    connected, cut off, server down for a while, then listening: bounded reconnect on the retry timer
+    for _ in range(ctx.n(250, 2500)):
+        retry_ms = rng.choice([100, 250, 999, 1000, 3000])
+        rt = -(-retry_ms * 64 // 1000)
+        lag = rng.randint(0, 2)
+        dmax = rng.randint(1, max(1, (rt - 1) // (lag + 1)))
+        if (lag + 1) * dmax >= rt:
+            continue
+        dmin = rng.randint(1, dmax)
+        tmo = rng.choice([rt, rt + rng.randint(1, 40), max((lag + 1) * dmax + 1, rt - rng.randint(0, 3))])
+        if (lag + 1) * dmax >= tmo:
+            continue
+        ndown = rng.randint(0, 3)
+        dtab = [["C0"]] + [rng.choice(downs) for _ in range(ndown)]
+        pre = [(rng.randint(0, 3), False), (rng.randint(0, 5), True)] + \
+              [(rng.choice([0, 1, 3, rt, tmo, 2 * tmo]), False) for _ in range(rng.randint(0, 10))]
+        _, pinfo = harness.run_impl("Patron", True, tmo, dtab + [["CINPROGRESS", "CREFUSED"]] * 30, "C0",
+                                    pre, retry_ms=retry_ms, tick=1.0 / 64)
+        n0 = pinfo["opens"]
+        table = (dtab + [["CINPROGRESS", "CREFUSED"]] * 30)[:n0] + listening_table(0, lag, 6, rng)
+        n = bound(max(tmo, rt), dmin, lag)
+        ticks = pre + [(rng.randint(dmin, dmax), False) for _ in range(n)]
+        add("Patron", True, tmo, table, "C0", ticks, "event-stream", live=(len(pre), n), retry_ms=retry_ms)
+    for retry_ms in (100, 250, 999, 1000, 3000):        # fixed small instances, both reconnectable or not
+        rt = -(-retry_ms * 64 // 1000)
+        for rc in (True, False):
+            add("Patron", rc, rt + 3, [["C0"], ["CINPROGRESS", "C0"]], "C0",
+                [(1, False), (1, True)] + [(2, False)] * (rt + 8), "event-stream-fixed",
+                live=((2, rt // 2 + 6) if rc else None), retry_ms=retry_ms)
 
     bad = ctx.coq_cases(HEADER, "l_eqb", cases, name="c27")
     for i in bad[:5]:
@@ -199,6 +250,14 @@ def run(ctx):
                        "drv=%s rc=%s tmo=%s table=%r dflt=%s ticks=%r info=%r" % (
                            m["drv"], m["rc"], m["tmo"], m["table"], m["dflt"], m["ticks"], m["info"]))
     ctx.extra["mismatches"] = len(bad)
+    # the executable statement evaluated on every premise-meeting schedule (diagnostic; the verdict
+    # comes from proofs + correspondence, the search re-evaluates it when a tie is broken)
+    ctx.extra["liveness_statement_failures"] = sum(
+        1 for m in metas if m["live"] is not None and prop_liveness(m["drv"], m["info"], *m["live"]))
+    ctx.extra["liveness_statement_failing"] = [
+        {k: m[k] for k in ("drv", "tmo", "table", "ticks", "live", "retry_ms", "own")}
+        for m in metas if m["live"] is not None and prop_liveness(m["drv"], m["info"], *m["live"])][:5]
+    ctx.extra["liveness_statement_cases"] = sum(1 for m in metas if m["live"] is not None)
     ctx.exhaustive = False
 
     if ctx.thorough:
@@ -229,7 +288,8 @@ def run(ctx):
                 thm = "C27.Props.non_reconnectable_never_reopens"
             if why:
                 key = "bare-client-cutoff" if (only_bare and bare_cut(m)) else "reconnect"
-                cand = {"key": key, "driver": m["drv"], "built_by_owner": m.get("own", True), "reconnectable": m["rc"], "timeout_ticks": m["tmo"],
+                cand = {"key": key, "driver": m["drv"], "event_stream_retry_ms": m.get("retry_ms"),
+                        "built_by_owner": m.get("own", True), "reconnectable": m["rc"], "timeout_ticks": m["tmo"],
                         "oracle_table": m["table"], "oracle_default": m["dflt"], "ticks": m["ticks"],
                         "observed": info, "why": why, "contradicts": thm}
                 rank = (key != "reconnect", len(m["ticks"]))
@@ -246,7 +306,8 @@ def nonreconn_violation(m):
     ticks = m["ticks"]
     base = None
     for k in range(1, len(ticks) + 1):
-        _, info = harness.run_impl(m["drv"], False, m["tmo"], m["table"], m["dflt"], ticks[:k], own=m.get("own", True))
+        _, info = harness.run_impl(m["drv"], False, m["tmo"], m["table"], m["dflt"], ticks[:k], own=m.get("own", True),
+                                   retry_ms=m.get("retry_ms"), tick=(1.0 / 64 if m.get("retry_ms") is not None else None))
         if base is not None:
             if info["opens"] != base:
                 return "non-reconnectable client opened a socket after cut off (tick %d)" % k
